@@ -233,7 +233,7 @@ func (g *gateRW) Write(p []byte) (int, error) { g.writes.Add(1); return len(p), 
 func raceHttpContext(r *Rec) {
 	rounds := 10
 	if r.thorough() {
-		rounds = 100
+		rounds = 60
 	}
 	for i := 0; i < rounds; i++ {
 		rw := &gateRW{hdr: http.Header{}, gate: make(chan struct{}), entered: make(chan struct{}, 2)}
@@ -286,7 +286,7 @@ func raceCors(r *Rec) {
 	isAllowed := map[string]bool{"https://a.example": true, "https://b.example": true, "https://c.example": true}
 	per := 1500
 	if r.thorough() {
-		per = 20000
+		per = 9000 // six times the quick tier: the three thorough seeds run side by side and must finish well within the family's limit
 	}
 	for _, c := range cfgs {
 		mw := types.MiddlewareWrapper(c.c)
@@ -327,7 +327,7 @@ func raceCors(r *Rec) {
 func raceCloseCauses(r *Rec) {
 	pairs := 400
 	if r.thorough() {
-		pairs = 20000
+		pairs = 3200 // eight times the quick tier (see above)
 	}
 	opts := &config.ServerOptions{}
 	opts.SetPingInterval(25 * time.Second)
